@@ -57,7 +57,9 @@ var c03admVersions = []string{"latest", "v1.0", "v1.7", "v1.8", "v1.18", "v1.19"
 // pod CREATE / significant UPDATE is sent under enforce = restricted, baseline
 // and privileged at one version (namespace labels or, for every third triple,
 // the configured defaults); the verdicts must be monotone (allowed under a
-// stricter level => allowed under a laxer one) for API-valid pods, and each of
+// stricter level => allowed under a laxer one; no audit-violations annotation
+// when auditing at the stricter level => none at a laxer one: Properties/Compositions
+// audit_findings_antitone) for API-valid pods, and each of
 // the three requests is also a case for the admission model (run_adm pf01).
 func c03admTriples(set *cq.Set, in *cq.Interner, r *rand.Rand, n int, real, marker policy.Evaluator) {
 	levels := []string{"restricted", "baseline", "privileged"}
@@ -77,11 +79,13 @@ func c03admTriples(set *cq.Set, in *cq.Interner, r *rand.Rand, n int, real, mark
 		valid := goAPIValid(base.Req.Object.Pod)
 		var allowed [3]bool
 		var evaluated [3]bool
+		var audited [3]bool
 		for k, lvl := range levels {
 			s := base
 			s.World.NSLabels = map[string]string{}
 			for key, v := range base.World.NSLabels { // keep the advisory labels of the draw
-				if key != "pod-security.kubernetes.io/enforce" && key != "pod-security.kubernetes.io/enforce-version" {
+				if key != "pod-security.kubernetes.io/enforce" && key != "pod-security.kubernetes.io/enforce-version" &&
+					key != "pod-security.kubernetes.io/audit" && key != "pod-security.kubernetes.io/audit-version" {
 					s.World.NSLabels[key] = v
 				}
 			}
@@ -91,15 +95,19 @@ func c03admTriples(set *cq.Set, in *cq.Interner, r *rand.Rand, n int, real, mark
 					continue
 				}
 				s.Cfg.Defaults.Enforce = lv
+				s.Cfg.Defaults.Audit = lv
 			} else {
 				s.World.NSLabels["pod-security.kubernetes.io/enforce"] = lvl
 				s.World.NSLabels["pod-security.kubernetes.io/enforce-version"] = ver
+				s.World.NSLabels["pod-security.kubernetes.io/audit"] = lvl // the audit mode follows the enforce mode of the triple
+				s.World.NSLabels["pod-security.kubernetes.io/audit-version"] = ver
 			}
 			s.LVs = candidateLVs([]map[string]string{s.World.NSLabels}, s.Cfg.Defaults)
 			s.Tags = append(append([]string{}, base.Tags...), "c03adm:"+lvl, fmt.Sprintf("c03adm-valid:%v", valid))
 			obs := adm.Run(&s.Cfg, real, &s.Req, &s.World)
 			if obs.Panic == "" && obs.Resp != nil {
 				allowed[k], evaluated[k] = obs.Resp.Allowed, true
+				audited[k] = obs.Resp.AuditAnnotations["pod-security.kubernetes.io/audit-violations"] != ""
 				s.Tags = append(s.Tags, fmt.Sprintf("c03adm:%s:allowed=%v", lvl, obs.Resp.Allowed)) // how often the premise of the ordering is met
 			}
 			c, fails := admCase(in, &s, real, marker)
@@ -113,6 +121,12 @@ func c03admTriples(set *cq.Set, in *cq.Interner, r *rand.Rand, n int, real, mark
 		}
 		for a := 0; a < 3; a++ {
 			for b := a + 1; b < 3; b++ {
+				if evaluated[a] && evaluated[b] && !audited[a] && audited[b] {
+					set.GoFails = append(set.GoFails, cq.GoFail{
+						What: fmt.Sprintf("level ordering of advisory findings: the same pod request carries no audit-violations annotation under audit=%s:%s and carries one under audit=%s:%s", levels[a], ver, levels[b], ver),
+						Replay: map[string]interface{}{"cfg_strings": cfgStrings(&base.Cfg), "request": base.Req, "advisory_labels": base.World.NSLabels, "version": ver, "via_defaults": viaDefaults,
+							"signature": "c03adm/audit/" + levels[a] + ">" + levels[b]}})
+				}
 				if evaluated[a] && evaluated[b] && allowed[a] && !allowed[b] {
 					set.GoFails = append(set.GoFails, cq.GoFail{
 						What: fmt.Sprintf("level ordering through admission: the same pod request is allowed under enforce=%s:%s and denied under enforce=%s:%s", levels[a], ver, levels[b], ver),
